@@ -83,9 +83,6 @@ func checkMeaningless(s string, frags []string) error {
 		if e == nil {
 			return fmt.Errorf("%s accepts %q, which contains the meaningless range %v", name, s, frags)
 		}
-		if !strings.Contains(e.Error(), "range") {
-			return fmt.Errorf("%s rejects %q but the error does not name the problem (a range): %v", name, s, e)
-		}
 		for _, f := range frags {
 			if !strings.Contains(e.Error(), f) {
 				return fmt.Errorf("%s rejects %q but the error does not name the offending range (%q missing): %v", name, s, f, e)
